@@ -11,6 +11,8 @@ import PyamgV.Proofs.ExtRelaxRefine
 import PyamgV.Proofs.ExtComplexGsEnergy
 import PyamgV.Proofs.ExtSmoothersCycle
 import PyamgV.Proofs.ExtSmoothersRefine
+import PyamgV.Proofs.ExtC02XComplexEx
+import PyamgV.Proofs.ExtC02XBlockEx
 import Mathlib.Algebra.Module.Prod
 
 /-! # C02 — SPD problems: no multigrid cycle increases the energy norm of the error
@@ -297,5 +299,109 @@ example :
     ExtSm.polynomial A [-1/5, 1] 1 #[1, 0] #[0, 0] = some #[3/5, 1/5] ∧
     ExtSm.polynomial A [-1/5, 1] 2 #[1, 0] #[2/3, 1/3] = some #[2/3, 1/3] ∧
     ExtSm.polynomial A [] 1 #[1, 0] #[0, 0] = none := by decide +kernel
+
+
+/-! ## the executable cycle model on complex Hermitian hierarchies and on BSR levels with block smoothers
+   (extension E35, Model/ExtC02XCycle.lean, Proofs/ExtC02X*.lean)
+
+`C02X.cycleO` is the text of `C02.cycle` on levels whose five pieces are functions on arrays; the CSR model is its
+instance `toO`.  Complex: the *same* `C02.cycle` run over the Gaussian rationals `CRat` (hierarchy `mkHierarchyH`,
+`R = Pᴴ`), arrays read as pairs `cread.ρ x = (Re x, Im x)`.  BSR: levels `BLvl` (dense matrix with its CSR and BSR
+copies), smoothers `block_gauss_seidel` / `block_jacobi` (kernel models of C09, exact inverse diagonal blocks) or the
+pointwise kernels. -/
+
+/-- one definition: the CSR cycle model is the operator-level cycle on `toO` levels -/
+restate cycle_model_is_operator_cycle := PyamgV.C02X.cycle_eq_cycleO
+/-- the operator-level cycle, read through any reading of arrays as vectors that respects `vsub`/`vadd`/`zeros` and
+under which the level pieces refine abstract levels, is the abstract recursion `cyc` -/
+restate operator_cycle_is_cyc := PyamgV.C02X.cycleO_refines
+
+/-- the model's `A @ x` over `CRat` is the realified complex CSR operator -/
+restate complex_spmv_is_ccsrOp := PyamgV.C02X.cspmv_refines
+/-- the model's smoothers over `CRat` (Gauss-Seidel, SOR, Jacobi kernels and their Python drivers), read as pairs -/
+restate complex_smoother_is_csmF := PyamgV.C02X.csm_refines
+/-- the complex Gauss-Seidel correction of a row is energy-orthogonal to the new error -/
+restate complex_gs_correction_orthogonal := PyamgV.C02X.cgsRow_orth
+/-- one row of the SOR kernel over `CRat`, real `0 ≤ ω ≤ 2`, Hermitian PSD matrix -/
+restate complex_sor_row_energy := PyamgV.C02X.csorRow_energy
+restate complex_sor_sweep_nonexpansive := PyamgV.C02X.csorSweep_cnonexp
+/-- the Jacobi kernel over `CRat` with real `ω` is `x + ω D⁻¹ (b − A x)` (complex diagonal) -/
+restate complex_jacobi_is_operator := PyamgV.C02X.cjacSweep_eq_operator
+restate complex_jacobi_nonexpansive := PyamgV.C02X.cjacobi_cnonexp
+/-- every admissible smoother of the complex model is non-expansive in the complex energy norm -/
+restate complex_model_smoother_nonexpansive := PyamgV.C02X.csmF_cnonexp
+/-- **the executable cycle model on `CRat` arrays, read as pairs of real functions, is the abstract recursion `cyc`** -/
+restate complex_cycle_model_is_cyc := PyamgV.C02X.ccycle_refines
+/-- **C02 for the executable model on complex Hermitian problems**: under `CWFModel` (Galerkin products, `R = Pᴴ`, one
+stored diagonal per row, real `0 ≤ ω ≤ 2` for Gauss-Seidel/SOR, real `ω` and the damping bound for Jacobi, solvable
+coarse problems, energy-exact coarsest solve) and a Hermitian PSD finest matrix the model cycle does not increase the
+complex energy `⟨e, A e⟩` of the error -/
+restate complex_model_cycle_nonexpansive := PyamgV.C02X.cmodel_cycle_nonexp
+/-- the functional the driver compares: `⟨x*−x, A(x*−x)⟩ = Re⟨x, A x⟩ − 2 Re⟨b, x⟩ + Re⟨b, x*⟩` -/
+restate complex_energy_functional := PyamgV.C02X.cfunctional_eq
+/-- non-vacuity: `A = [[2, i], [−i, 2]]`, `P = (1, i)ᵀ`, `R = Pᴴ`, Gauss-Seidel pre- and symmetric SOR(3/2)
+post-smoothing, exact coarse solve: every hypothesis holds; hence for all `x, b ∈ ℚ(i)²`, all cycle types -/
+restate example_complex_hierarchy_nonexpansive := PyamgV.C02X.CEx.example_ccycle_nonexp
+example : C02X.CWFModel C02X.CEx.solveF C02X.CEx.Ac1 [C02X.CEx.L2] := C02X.CEx.wf2
+
+/-- the executable complex model on that problem: the hierarchy `mkHierarchyH` builds has the coarse matrix `(2)`,
+passes the driver's exact checks (`A₀` Hermitian, real form positive definite, data hypotheses), and one V-cycle from
+`x = 0`, `b = (1, i)` does not increase the energy functional -/
+example :
+    let A : K.Csr CRat := ⟨2, #[0, 2, 4], #[0, 1, 0, 1], #[⟨2, 0⟩, ⟨0, 1⟩, ⟨0, -1⟩, ⟨2, 0⟩]⟩
+    let P : K.Csr CRat := ⟨2, #[0, 1, 2], #[0, 0], #[⟨1, 0⟩, ⟨0, 1⟩]⟩
+    let (ls, Ac, _) := C02X.mkHierarchyH CRat.conj A [⟨2, 1, P, .gs 1 .forward 1, .gs ⟨3/2, 0⟩ .symmetric 1⟩]
+    let solve := fun rhs => (C02.gaussSolve Ac rhs).getD #[]
+    let b : Array CRat := #[⟨1, 0⟩, ⟨0, 1⟩]
+    let x' := C02.cycle solve .V 1 ls #[0, 0] b
+    Ac = #[#[⟨2, 0⟩]] ∧ C02X.isHermitian A = true ∧
+      C02.pivotsPositive (C02X.realForm (C02.toDense A 2) 2 2) = true ∧
+      C02X.ccheckLevels Ac 1 ls = true ∧ C02X.cfunctionalLe A b #[0, 0] x' = true := by decide +kernel
+
+/-- the CSR and the BSR copy of a dense matrix have the operator of the dense matrix -/
+restate csr_copy_operator := PyamgV.C02X.csrOp_ofDense
+restate bsr_copy_operator := PyamgV.C02X.bsrOp_ofDense
+/-- one block row of the `block_gauss_seidel` kernel model with `A_ii Dinv_i = I` (an exact subspace correction) -/
+restate block_gs_step_energy := PyamgV.C02X.bgsStep_energy
+/-- the `block_gauss_seidel` kernel model over any list of block rows -/
+restate block_gs_kernel_nonexpansive := PyamgV.C02X.blockGaussSeidel_array_nonexp
+/-- the Python driver model `K.pyBlockGaussSeidel`: forward / backward / symmetric, any iteration count -/
+restate py_block_gauss_seidel_nonexpansive := PyamgV.C02X.pyBlockGaussSeidel_array_nonexp
+/-- the `block_jacobi` kernel model over all block rows is `x + ω D_B⁻¹ (b − A x)` -/
+restate block_jacobi_kernel_is_operator := PyamgV.C02X.blockJacobi_array_operator
+/-- the Python driver model `K.pyBlockJacobi` under `ω ‖D_B⁻¹ r‖²_A ≤ 2⟨D_B⁻¹ r, r⟩` -/
+restate py_block_jacobi_nonexpansive := PyamgV.C02X.pyBlockJacobi_array_nonexp
+/-- an array-level smoother that never increases the energy of the error is a `NonExp` iteration on functions -/
+restate array_smoother_nonexpansive := PyamgV.C02X.liftSm_nonexp
+/-- every admissible smoother of a BSR level (`bsmOK`) is non-expansive in the level's energy norm -/
+restate block_model_smoother_nonexpansive := PyamgV.C02X.bsmF_nonexp
+/-- **the executable cycle model on BSR levels, read as functions, is the abstract recursion `cyc`** -/
+restate block_cycle_model_is_cyc := PyamgV.C02X.bcycle_refines
+/-- **C02 for the executable model with BSR levels and block smoothers**: under `BWFModel` (Galerkin products,
+`R = Pᵀ`, block Gauss-Seidel with exact inverse diagonal blocks in any sweep mode, block Jacobi with exact inverse
+diagonal blocks under its damping bound, the pointwise smoothers under the conditions of `model_cycle_nonexpansive`,
+solvable coarse problems, energy-exact coarsest solve) and a symmetric PSD finest matrix the model cycle does not
+increase the energy of the error -/
+restate block_model_cycle_nonexpansive := PyamgV.C02X.bmodel_cycle_nonexp
+/-- non-vacuity: 4-point Poisson matrix in `2 × 2` blocks, piecewise-constant `P`, `R = Pᵀ`, forward block Gauss-Seidel
+pre-smoothing, two block Jacobi(1) post-smoothing steps with `Dinv = (1/3)[[2,1],[1,2]]`, exact coarse solve: every
+hypothesis holds; hence for all `x, b ∈ ℚ⁴`, all cycle types -/
+restate example_block_hierarchy_nonexpansive := PyamgV.C02X.BEx.example_bcycle_nonexp
+example : C02X.BWFModel C02X.BEx.solveF C02X.BEx.Ac2 2 [C02X.BEx.L4] := C02X.BEx.wf4
+
+/-- the executable BSR model on that problem: `bmkHierarchy` forms `Dinv = (1/3)[[2,1],[1,2]]` per block and the coarse
+matrix `[[2,−1],[−1,2]]`, the driver's exact checks pass, and one W-cycle from `x = 0`, `b = (1,1,1,1)` does not
+increase the energy functional -/
+example :
+    let Ad : C02.Dense Rat := #[#[2, -1, 0, 0], #[-1, 2, -1, 0], #[0, -1, 2, -1], #[0, 0, -1, 2]]
+    let P : K.Csr Rat := ⟨4, #[0, 1, 2, 3, 4], #[0, 0, 1, 1], #[1, 1, 1, 1]⟩
+    (match C02X.bmkHierarchy Ad [⟨4, 2, P, .bgs 2 .forward 1, .bjac 2 1 2⟩] with
+    | none => false
+    | some (ls, Ac, nc) =>
+      let solve := fun rhs => (C02.gaussSolve Ac rhs).getD #[]
+      let b : Array Rat := #[1, 1, 1, 1]
+      let x' := C02X.cycleO solve .W 1 (ls.map C02X.BLvl.toO) #[0, 0, 0, 0] b
+      decide (Ac = #[#[2, -1], #[-1, 2]]) && decide (nc = 2) && C02X.bcheckLevels Ac nc ls &&
+        C02.functionalLe (C02.ofDense Ad 4) b #[0, 0, 0, 0] x') = true := by decide +kernel
 
 end PyamgV.Props.C02
